@@ -834,3 +834,106 @@ pub fn probe(d: &mut D) {
         }
     }
 }
+
+/// spec -> impl transition tour.  The input alphabet of the bounded Endpoint model (packets, accessor
+/// values, UUIDs, configuration) is exported by TLC (GenEndpoint.tla, "ALPHA" line) into the file named
+/// by VERIF_ALPHABET.  The abstract state of a context is (request-half EID, response-half EID, UUID);
+/// every action of the alphabet is executed from every abstract state, navigating between states with
+/// the accessors.  The recorded trace is validated like any other.
+pub fn tour(d: &mut D) {
+    let path = std::env::var("VERIF_ALPHABET").unwrap_or_else(|_| {
+        eprintln!("harness: the tour family needs VERIF_ALPHABET (written by ./check from TLC's output)");
+        std::process::exit(2)
+    });
+    let txt = std::fs::read_to_string(&path).unwrap_or_else(|e| {
+        eprintln!("harness: cannot read {}: {}", path, e);
+        std::process::exit(2)
+    });
+    let a: Value = serde_json::from_str(&txt).unwrap_or_else(|e| {
+        eprintln!("harness: bad alphabet JSON: {}", e);
+        std::process::exit(2)
+    });
+    let packets: Vec<Vec<u8>> = a["packets"].as_array().unwrap().iter().map(crate::runner::bytes).collect();
+    let uuids: Vec<Vec<u8>> = a["uuids"].as_array().unwrap().iter().map(crate::runner::bytes).collect();
+    let mut eids: Vec<u8> = a["eids"].as_array().unwrap().iter().map(|x| x.as_u64().unwrap() as u8).collect();
+    // EIDs that packets of the alphabet can assign
+    for p in packets.iter() {
+        if p.len() == 14 && p[8] == 0 && p[9] & 0x80 != 0 && p[10] == 1 && !eids.contains(&p[12]) {
+            eids.push(p[12]);
+        }
+    }
+    if !eids.contains(&0) {
+        eids.push(0);
+    }
+    eids.sort();
+    let ctxs: Vec<u64> = a["ctxs"].as_array().unwrap().iter().map(|x| x.as_u64().unwrap()).collect();
+    let cfgs = a["cfg"].as_array().unwrap();
+    for (k, c) in ctxs.iter().enumerate() {
+        let cf = &cfgs[k];
+        d.ex(json!({"op":"new","ctx":c,"addr":cf["addr"],"msg_types":cf["mts"],"vendor_ids":cf["vids"]}));
+    }
+    let c = ctxs[0];
+    let mut all_uuids: Vec<Vec<u8>> = vec![vec![0u8; 16]];
+    all_uuids.extend(uuids.iter().cloned());
+    // current abstract state, learned from the events
+    let mut cur = (0u8, 0u8, 0usize);
+    let shard = shard_of();
+    let mut k = 0usize;
+    for (ui, u) in all_uuids.iter().enumerate() {
+        for &er in eids.iter() {
+            for &es in eids.iter() {
+                k += 1;
+                if k % shard.1 != shard.0 {
+                    continue;
+                }
+                let target = (er, es, ui);
+                // one action at a time from the target state
+                let nact = 2 * packets.len() + 2 * eids.len() + uuids.len();
+                for act in 0..nact {
+                    // navigate
+                    if cur.2 != target.2 {
+                        d.ex(json!({"op":"set_uuid","ctx":c,"uuid":jb(u)}));
+                        cur.2 = target.2;
+                    }
+                    if cur.0 != target.0 {
+                        d.ex(json!({"op":"set_eid","ctx":c,"half":"req","eid":target.0}));
+                        cur.0 = target.0;
+                    }
+                    if cur.1 != target.1 {
+                        d.ex(json!({"op":"set_eid","ctx":c,"half":"resp","eid":target.1}));
+                        cur.1 = target.1;
+                    }
+                    // act
+                    let e = if act < packets.len() {
+                        d.process(c, &packets[act])
+                    } else if act < 2 * packets.len() {
+                        d.decode(c, &packets[act - packets.len()])
+                    } else if act < 2 * packets.len() + eids.len() {
+                        d.ex(json!({"op":"set_eid","ctx":c,"half":"req","eid":eids[act - 2 * packets.len()]}))
+                    } else if act < 2 * packets.len() + 2 * eids.len() {
+                        d.ex(json!({"op":"set_eid","ctx":c,"half":"resp","eid":eids[act - 2 * packets.len() - eids.len()]}))
+                    } else {
+                        let ix = act - 2 * packets.len() - 2 * eids.len();
+                        cur.2 = ix + 1;
+                        d.ex(json!({"op":"set_uuid","ctx":c,"uuid":jb(&uuids[ix])}))
+                    };
+                    cur.0 = e["post"]["eid_req"].as_u64().unwrap() as u8;
+                    cur.1 = e["post"]["eid_resp"].as_u64().unwrap() as u8;
+                }
+            }
+        }
+    }
+}
+
+/// VERIF_SHARD = "i/n": this run covers the i-th of n slices of a family's outer loop.
+pub fn shard_of() -> (usize, usize) {
+    match std::env::var("VERIF_SHARD") {
+        Ok(s) => {
+            let mut it = s.split('/');
+            let i: usize = it.next().and_then(|x| x.parse().ok()).unwrap_or(0);
+            let n: usize = it.next().and_then(|x| x.parse().ok()).unwrap_or(1);
+            (i % n.max(1), n.max(1))
+        }
+        Err(_) => (0, 1),
+    }
+}
